@@ -16,6 +16,9 @@ BUILT={
  "C04":("exploration","runtime monitor: strict model decoder logs every compression pointer of library output and compares the expansion byte-exact with the uncompressed packing; model-compressed input fed back",
         "Messages from suffix-sharing/case-variant pools incl. >16384-octet ones; every pointer's position, target and field judged by an independent decoder.",
         "RFC 3597 s.4 set hard-coded in the model"),
+ "C05":("exploration","runtime monitor: String()->NewRR round trip with octet comparison for wire-decoded and struct-built records; independent RFC 1035 s.5.1 tokenizer and typed field reader for 56 regular types; one-hostile-feature-at-a-time matrix over every text field; generic-form and numeric/mnemonic spellings; all 65536 type/class codes",
+        "The feature matrix attributes every failure to one (type, field, content class); the independent reader decides whether other implementations would read the same values.",
+        "bespoke presentation formats (LOC, APL, SVCB, NSEC3, IPSECKEY, ...) are checked token-level only by the independent reader"),
  "C08":("exploration","runtime monitor: Len()/Len(rr) vs actual Pack output, exactness on escape-free common types, PackBuffer in-place check by address, records straddling offset 16384 at 80 alignments per name-bearing type",
         "Observes the inequality/equality on every generated message in both compression settings and at the 16384 boundary.",
         "the model generator only produces packable messages"),
